@@ -365,3 +365,152 @@ def _sel_alts(e):
             out.extend(_sel_alts(a))
         return out
     return [e]
+
+
+# ----------------------------------------------------------------------------- the thresholded bipartite graph
+def check_graph(rep, rule, run: "Run", D: Blocks):
+    """The graph handed to the matching library is, for the probed threshold d, exactly {(row r, column c) : D[r, c] <= d}
+    over all (M+N)² cells, rows keyed by the row position and columns labelled by the column position.
+    Every store into the graph dictionary is read as (key position, set of columns as a membership predicate); the relation
+    they define is compared with the thresholded matrix cell by cell on small sizes, with the threshold ranging over the
+    matrix's own entries (so that `<=` versus `<` shows) and values between them."""
+    import random
+    from ..core.values import DictV, PSet, StrV
+    fi = run.fi
+    hk = [ev for ev in run.events("hopcroftkarp")]
+    if not hk:
+        rep.unmodelled(rule, fi, fi.node, "no graph is handed to the matching library")
+        return "unmodelled"
+    stores = {}
+    for ev in run.events("store"):
+        if isinstance(ev["base"], DictV) and ev["idx"] and ev["idx"][0][0] == "str":
+            stores[id(ev["node"])] = ev
+    stores = list(stores.values())
+    if not stores:
+        rep.unmodelled(rule, fi, hk[0]["node"], "the rows of the graph are not stored under string keys")
+        return "unmodelled"
+    recs = []
+    for ev in stores:
+        key = ev["idx"][0]
+        arg = key[2] if len(key) > 2 else None
+        v = ev["value"]
+        if arg is None:
+            rep.unmodelled(rule, fi, ev["node"], "the key a row of the graph is stored under is not the text of one number")
+            return "unmodelled"
+        if not isinstance(v, PSet):
+            rep.unmodelled(rule, fi, ev["node"], f"the columns of a row are not modelled as a set of positions ({type(v).__name__})")
+            return "unmodelled"
+        if ev.get("comp_ivar"):
+            loops = [(ev["comp_ivar"], ev["comp_space"])]
+        else:
+            loops = [(lp["ivar"], lp["space"]) for lp in ev["loops"] if lp["loop_kind"] == "for" and lp["ivar"] is not None
+                     and lp["fi"] is ev["fi"]]
+            loops = [l for l in loops if l[0] in sym.free_ivars(arg) or l[0] in sym.free_ivars(v.pred)]
+        recs.append(dict(ev=ev, key=arg, pred=v.pred, loops=loops))
+    # the probed threshold: the one operand of the comparisons that is neither data of a cell nor a position
+    def thresholds(pred, loop_ivs):
+        out = set()
+        for x in sym.walk(pred):
+            if x[0] != "cmp":
+                continue
+            for side in (x[2], x[3]):
+                if side[0] in ("num", "size", "iv"):
+                    continue
+                fv = sym.free_ivars(side)
+                if PSet.VAR in fv or fv & loop_ivs:
+                    continue
+                if any(y[0] == "at" for y in sym.walk(side)) and fv:
+                    continue
+                if all(y[0] in ("size", "num", "lin", "mul", "iv") for y in sym.walk(side)):
+                    continue
+                out.add(side)
+        return out
+    ths = set()
+    for rc in recs:
+        ths |= thresholds(rc["pred"], {iv for iv, _ in rc["loops"]})
+    def canon(e):
+        out = e
+        for k, iv in enumerate(sorted(sym.free_ivars(e))):
+            out = sym.subst_ivar(out, iv, (f"$t{k}#", 0))
+        # order of appearance would be better than name order; the copies here differ only in the names
+        names = []
+        for x in sym.walk(out):
+            if x[0] == "in":
+                for i_ in x[2]:
+                    if isinstance(i_, tuple) and i_[0] not in names:
+                        names.append(i_[0])
+            elif x[0] == "iv" and x[1] not in names:
+                names.append(x[1])
+        for k, nm in enumerate(names):
+            out = sym.subst_ivar(out, nm, (f"$u{k}", 0))
+        return out
+    groups = {}
+    for t_ in ths:
+        groups.setdefault(canon(t_), []).append(t_)
+    if len(groups) != 1:
+        rep.unmodelled(rule, fi, stores[0]["node"], f"expected one probed threshold in the edge tests, found {len(groups)}")
+        return "unmodelled"
+    thr = sym.Sym("$thr")
+    for rc in recs:
+        rc["pred"] = sym.subst(rc["pred"], {t_: thr for t_ in ths})
+        um = unmodelled_in(rc["pred"]) or unmodelled_in(rc["key"])
+        if um:
+            rep.unmodelled(rule, fi, rc["ev"]["node"], f"edge test not fully modelled ({um[0]})")
+            return "unmodelled"
+    rng = random.Random(23)
+    n_cells = 0
+    for (m, n) in ((1, 1), (1, 2), (2, 1), (2, 2), (2, 3), (3, 2), (3, 3)):
+        for trial in range(3):
+            pt = symeval.Point(rng, nrows=3, sizes={("rows", run.a): m, ("rows", run.b): n})
+            pt.eval_ranges = True
+            pt.blocks = {D.uid: D}
+            try:
+                cells = {(r, c): symeval.eval_block_entry(D, r, c, pt) for r in range(m + n) for c in range(m + n)}
+            except symeval.NotEvaluable as ex:
+                rep.unmodelled(rule, fi, fi.node, f"cannot evaluate the cost matrix ({ex})")
+                return "unmodelled"
+            finite = sorted({v for v in cells.values() if v == v and abs(v) != float("inf")})
+            probes = list(finite) + [finite[0] - 1.0] + [(a + b) / 2 for a, b in zip(finite, finite[1:])][:3]
+            for tv in probes:
+                pt.syms["$thr"] = tv
+                got = set()
+                for rc in recs:
+                    spaces = []
+                    for iv, sp in rc["loops"]:
+                        try:
+                            spaces.append((iv, symeval.space_rows(sp.key, pt)))
+                        except symeval.NotEvaluable as ex:
+                            rep.unmodelled(rule, fi, rc["ev"]["node"], f"cannot evaluate a loop range ({ex})")
+                            return "unmodelled"
+                    import itertools as _it
+                    for combo in _it.product(*[rows_ for _, rows_ in spaces]) if spaces else [()]:
+                        for (iv, _), k in zip(spaces, combo):
+                            pt.ivs[iv] = k
+                        try:
+                            r = int(round(symeval.ev(rc["key"], pt)))
+                            for c in range(-1, m + n + 1):
+                                pt.ivs[PSet.VAR] = c
+                                if symeval.ev(rc["pred"], pt):
+                                    got.add((r, c))
+                        except symeval.NotEvaluable as ex:
+                            rep.unmodelled(rule, fi, rc["ev"]["node"], f"cannot evaluate an edge test ({ex})")
+                            return "unmodelled"
+                want = {(r, c) for (r, c), v in cells.items() if v <= tv}
+                n_cells += len(cells)
+                if got != want:
+                    extra, missing = sorted(got - want), sorted(want - got)
+                    what = (f"edge (row {extra[0][0]}, column {extra[0][1]}) is in the graph although "
+                            f"{'there is no such cell' if extra[0] not in cells else 'D = ' + format(cells[extra[0]], '.4g') + ' > d'}"
+                            if extra else
+                            f"edge (row {missing[0][0]}, column {missing[0][1]}) is missing although D = "
+                            f"{cells[missing[0]]:.4g} <= d")
+                    rep.refuted(rule, fi, recs[0]["ev"]["node"],
+                                f"with {m} and {n} points and d = {tv:.4g}: {what} — the graph searched for a perfect matching is "
+                                f"not the cost matrix thresholded at d",
+                                construct=f"{run.qual}: threshold graph", failing_input=f"sizes ({m}, {n}), d={tv:.4g}")
+                    return "refuted"
+    rep.discharged(rule, fi, recs[0]["ev"]["node"],
+                   f"the graph handed to the matching library is {{(r, c): D[r, c] <= d}} cell by cell (rows keyed by position, "
+                   f"columns labelled by position): {n_cells} cells compared on sizes up to 3+3 with d at, between and below the "
+                   f"matrix's entries")
+    return "ok"
